@@ -2,6 +2,7 @@ package props
 
 import (
 	"fmt"
+	"math/big"
 	"strings"
 
 	"github.com/ipld/go-ipld-prime"
@@ -9,6 +10,7 @@ import (
 	"github.com/ipld/go-ipld-prime/node/bindnode"
 
 	"github.com/ucan-wg/go-ucan/pkg/policy"
+	"github.com/ucan-wg/go-ucan/pkg/policy/selector"
 
 	"verifharness/engine"
 	"verifharness/refmodel"
@@ -309,6 +311,70 @@ func c13HashSub() *engine.Sub {
 				if got != want {
 					ctx.Failf(cs, "glob/fingerprint-instead-of-comparison/"+c13HashForms[cs.Form], "like %s (T = Thue-Morse sequence of %d letters over %q) on a string of %d bytes built from T and its complement gives %v, the string %s in the language", c13HashForms[cs.Form], n, cs.Pair, len(s), got, map[bool]string{true: "is", false: "is not"}[want])
 				}
+			}
+		},
+	}
+}
+
+// ---- (C12) indexes beyond 64 bits ----
+
+type c12WrapCase struct {
+	N    string `json:"n"`
+	Form int    `json:"form"`
+}
+
+func (c *c12WrapCase) Weight() int { return len(c.N) }
+
+func c12WrapSub() *engine.Sub {
+	two64, _ := new(big.Int).SetString("18446744073709551616", 10)
+	var ns []string
+	for _, base := range []*big.Int{two64, new(big.Int).Lsh(two64, 1), new(big.Int).Lsh(two64, 64), new(big.Int).Lsh(big.NewInt(1), 63), new(big.Int).Lsh(big.NewInt(1), 32)} {
+		for r := int64(-13); r <= 13; r++ {
+			ns = append(ns, new(big.Int).Add(base, big.NewInt(r)).String())
+		}
+	}
+	forms := []string{".[%s]", ".[-%s]", ".[%s]?", ".a[%s]", ".[0%s]"}
+	return &engine.Sub{
+		Name:  "indexes-beyond-the-machine-word",
+		Rule:  "index segments written as 2^32, 2^63, 2^64, 2^65 and 2^128 plus or minus 0 .. 13 (an index that, reduced modulo 2^64 or 2^32, falls inside the list), positive, negative, optional, after a field, with a leading zero, resolved on the list 0 .. 12, on 13 bytes and on {a: list}: the parser may refuse the text; if it accepts it the index is out of range - an error, or no value for the optional form - never an element; non-trivial = texts the parser accepts",
+		Bound: func(string) string { return fmt.Sprintf("%d integers x %d forms x 3 values", len(ns), len(forms)) },
+		Gen: func(tier string, emit func(any) bool) {
+			for _, n := range ns {
+				for f := range forms {
+					if !emit(&c12WrapCase{n, f}) {
+						return
+					}
+				}
+			}
+		},
+		NewCase: func() any { return &c12WrapCase{} },
+		Run: func(ctx *engine.Ctx, c any) {
+			cs := c.(*c12WrapCase)
+			text := fmt.Sprintf(forms[cs.Form], cs.N)
+			sel, err := selector.Parse(text)
+			ctx.States(1)
+			ctx.Eval(1)
+			if err != nil {
+				ctx.Outcome("rejected")
+				return
+			}
+			ctx.Nontrivial(1)
+			var items []datamodel.Node
+			var bs []byte
+			for i := 0; i < 13; i++ {
+				items = append(items, nInt(int64(i)))
+				bs = append(bs, byte(i))
+			}
+			for _, v := range []datamodel.Node{nList(items...), nBytes(bs), nMap(kv{"a", nList(items...)})} {
+				got, gerr := sel.Select(v)
+				ctx.Eval(1)
+				ctx.Trans(1)
+				if gerr == nil && got != nil {
+					ctx.Outcome("element")
+					ctx.Failf(cs, "seg:index/huge-index-selects-an-element", "Parse(%q) is accepted and selects %s from %s: an index of that size is outside every list", text, nodeJSON(got), nodeJSON(v))
+					return
+				}
+				ctx.Outcome("out-of-range")
 			}
 		},
 	}
